@@ -58,6 +58,10 @@ theorem step_coherent (q : QueryCtx) (n : Node K V) (s : Step K V) (hc : Coheren
         show Coherent (getApp true s' n.cache k).1 n.work
         rw [getApp_prev]; exact hc
     | checkTx k => exact ⟨getApp_coherent hc k rfl, rfl, rfl⟩
+    | simulate k v =>
+      refine ⟨?_, rfl, rfl⟩
+      show Coherent (setApp true n.work (getApp true n.work n.cache k).1 k v).2 n.work
+      simp only [getApp_prev, setApp, if_true]; exact hc
 
 /-- All custom queries met along the run are benign (or the plumbing is the repaired one). -/
 def AllBenign (q : QueryCtx) : Node K V → List (Step K V) → Prop
@@ -125,7 +129,7 @@ theorem allBenign_no_off (q : QueryCtx) (n : Node K V) (steps : List (Step K V))
       rw [List.filter_cons_of_pos hp]; exact ⟨Or.inr trivial, ih _⟩
 
 /-- **`consensus_indep_offchain`** (repaired query context): for every history, every interleaving
-of custom queries at any height, RPC queries, CheckTx reads, every restart schedule and every LRU
+of custom queries at any height, RPC queries, CheckTx reads, simulations, every restart schedule and every LRU
 capacity, block execution observes exactly what it observes in the history without the off-chain
 requests. -/
 theorem consensus_indep_offchain (steps : List (Step K V)) (n : Node K V) (hc : Coherent n.cache n.work) :
@@ -313,7 +317,7 @@ theorem frunPure_filter (W : World S C L H Sess) (w : Store K V) (ms : List S) (
 /-- **`consensus_indep_offchain_all`**: for every history of the whole node — block execution
 (application reads/writes, claim validations), commits, restarts with any capacities — and **every**
 interleaving of off-chain traffic (custom application queries at any height, RPC queries, CheckTx
-reads, dispatch requests through the RPC and through `Query custom/pocketcore/dispatch` at any
+reads, simulated stake transactions, dispatch requests through the RPC and through `Query custom/pocketcore/dispatch` at any
 height), block execution observes exactly what it observes in the history without that traffic. -/
 theorem consensus_indep_offchain_all (W : World S C L H Sess) (steps : List (FStep K V S H))
     (n : FNode K V S C L H Sess) (hi : NodeInv W n) :
